@@ -321,6 +321,7 @@ func (e *env) rpmCompareOps(n int) {
 		got := timed(5*time.Second, func() string { return sign(rpmver.NewVersion(a).Compare(rpmver.NewVersion(b))) })
 		r.Op("rpmcmp "+hexs(a)+" "+hexs(b), got, a != b)
 		r.Count("rpmcmp:result:" + got)
+		e.shapes("rpm", a, b)
 		if expect != 2 && got != sign(expect) {
 			r.Fail("", fmt.Sprintf("rpm-order: Compare(%q,%q)=%s, the rpm version scheme says %s", a, b, got, sign(expect)))
 		}
@@ -333,6 +334,41 @@ func (e *env) rpmCompareOps(n int) {
 			s := timed(5*time.Second, func() string { v := rpmver.NewVersion(a); return hexs(v.String()) })
 			r.Op("rpmstr "+hexs(a), s, true)
 		}
+	}
+}
+
+// shapes counts which parts of a scheme's grammar a version string exercises
+// (the evidence histogram shows that the generators reach them).
+func (e *env) shapes(scheme string, vs ...string) {
+	for _, v := range vs {
+		has := func(f string, ok bool) {
+			if ok {
+				e.r.Count("shape:" + scheme + ":" + f)
+			}
+		}
+		has("epoch", strings.Contains(v, ":") || strings.Contains(v, "!"))
+		has("tilde", strings.Contains(v, "~"))
+		has("letters", strings.IndexFunc(v, func(c rune) bool { return c >= 'a' && c <= 'z' || c >= 'A' && c <= 'Z' }) >= 0)
+		has("release/revision", strings.Contains(v, "-"))
+		has("empty", v == "")
+		lz, long := false, false
+		run := 0
+		for i := 0; i <= len(v); i++ {
+			if i < len(v) && v[i] >= '0' && v[i] <= '9' {
+				if run == 0 && v[i] == '0' && i+1 < len(v) && v[i+1] >= '0' && v[i+1] <= '9' {
+					lz = true
+				}
+				run++
+				continue
+			}
+			if run > 18 {
+				long = true
+			}
+			run = 0
+		}
+		has("leading-zero", lz)
+		has("number>18digits", long)
+		has("pre/post/dev-suffix", strings.Contains(v, "_") || strings.Contains(v, "rc") || strings.Contains(v, "dev") || strings.Contains(v, "post") || strings.Contains(v, "alpha") || strings.Contains(v, "SNAPSHOT"))
 	}
 }
 
@@ -608,6 +644,7 @@ func (e *env) debCompareOps(n int) {
 			r.Count("debcmp:edited")
 		}
 		line := "debcmp " + hexs(a) + " " + hexs(b)
+		e.shapes("deb", a, b)
 		check := func(got string) {
 			r.Count("debcmp:result:" + got)
 			if got == "hang" {
@@ -791,6 +828,7 @@ func (e *env) apkCompareOps(n int) {
 		r.Op("apkcmp "+hexs(a)+" "+hexs(b), got, a != b)
 		r.Op("apkcmp2 "+hexs(a)+" "+hexs(b), got, a != b)
 		r.Count("apkcmp:result:" + got)
+		e.shapes("apk", a, b)
 		if expect != 2 && got != sign(expect) {
 			r.Fail("", fmt.Sprintf("apk-order: Compare(%q,%q)=%s, the apk version scheme says %s", a, b, got, sign(expect)))
 		}
@@ -947,6 +985,7 @@ func osvTable(sc langScheme, pv, fixedIn string) string {
 func (e *env) osvCall(sc langScheme, pv, fixedIn string) string {
 	p, a := pkg{version: pv}, advisory{fixed: fixedIn}
 	got := call(sc.m, p, a, nil)
+	e.shapes(sc.name, pv)
 	e.r.Op("osv "+hexs(pv)+" "+hexs(fixedIn)+" "+osvTable(sc, pv, fixedIn), got, true)
 	// the same call against the string-level models of the scheme (C12's)
 	e.r.Op("osvs "+sc.name+" "+hexs(pv)+" "+hexs(fixedIn), got, true)
